@@ -217,11 +217,11 @@ func decodeString(src *bufio.Reader, noQuotes bool) []byte {
 	length := decodeIntAdditionalType(src, minor)
 	len := int(length)
 	pbs := readNBytes(src, len)
-	result = append(result, pbs...)
 	if noQuotes {
-		return result
+		return append(result, pbs...)
 	}
-	return append(result, '"')
+	// A byte string shown as a JSON string needs the same escaping as text.
+	return appendJSONString(pbs)
 }
 func decodeStringToDataUrl(src *bufio.Reader, mimeType string) []byte {
 	pb := readByte(src)
@@ -257,11 +257,16 @@ func decodeUTF8String(src *bufio.Reader) []byte {
 	if major != majorTypeUtf8String {
 		panic(fmt.Errorf("Major type is: %d in decodeUTF8String", major))
 	}
-	result := []byte{'"'}
 	length := decodeIntAdditionalType(src, minor)
 	len := int(length)
 	pbs := readNBytes(src, len)
+	return appendJSONString(pbs)
+}
 
+// appendJSONString returns pbs as a quoted JSON string, escaped like the JSON encoder does.
+func appendJSONString(pbs []byte) []byte {
+	result := []byte{'"'}
+	len := len(pbs)
 	for i := 0; i < len; i++ {
 		// Check if the character needs encoding. Control characters, slashes,
 		// and the double quote need json encoding. Bytes above the ascii
